@@ -279,6 +279,26 @@ func concretise(class string, me string, seq int, rng *rand.Rand) []byte {
 		return peer.EncodeData(5, me, "victim", "x", "unreach", []byte(`{"FromNode":5,"ToNode":[],"Problem":{}}`))
 	case "data_to_unreach_valid":
 		return peer.EncodeData(5, me, "victim", "unreach", "unreach", []byte(`{"FromNode":"victim","ToNode":"q","FromService":"zz","ToService":"a","Problem":"service unknown"}`))
+	case "data_to_unreach_null":
+		return peer.EncodeData(5, me, "victim", "x", "unreach", []byte(" null "))
+	case "data_to_unreach_array":
+		return peer.EncodeData(5, me, "victim", "x", "unreach", []byte(`[1,{"a":null}]`))
+	case "data_to_unreach_emptyobj":
+		return peer.EncodeData(5, me, "victim", "x", "unreach", []byte(`{}`))
+	case "data_to_unreach_string":
+		return peer.EncodeData(5, me, "victim", "x", "unreach", []byte(`"service unknown"`))
+	case "data_to_unreach_number":
+		return peer.EncodeData(5, me, "victim", "x", "unreach", []byte(`-1.5e3`))
+	case "data_to_unreach_bool":
+		return peer.EncodeData(5, me, "victim", "x", "unreach", []byte(`true`))
+	case "data_to_unreach_deep":
+		return peer.EncodeData(5, me, "victim", "x", "unreach", []byte(strings.Repeat(`{"FromNode":`, 3000)))
+	case "data_to_unreach_empty":
+		return peer.EncodeData(5, me, "victim", "x", "unreach", nil)
+	case "data_to_ping_payload":
+		return peer.EncodeData(5, me, "victim", "x", "ping", rb(200))
+	case "data_from_unreach_to_unbound":
+		return peer.EncodeData(5, me, "victim", "unreach", "nosuch", rb(10))
 	case "data_to_unbound":
 		return peer.EncodeData(5, me, "victim", "x", "nosuch", rb(10))
 	case "data_empty_service":
@@ -382,7 +402,10 @@ func startWireChild() (*wireChild, error) {
 	cmd.Env = append(os.Environ(), "VERIF_DEBUG=")
 	stdin, _ := cmd.StdinPipe()
 	stdout, _ := cmd.StdoutPipe()
-	errf, _ := os.CreateTemp("", "wirechild-*.log"); if p := os.Getenv("VERIF_WIRE_LOG"); p != "" { errf, _ = os.OpenFile(p, os.O_APPEND|os.O_CREATE|os.O_WRONLY, 0o644) }
+	errf, _ := os.CreateTemp("", "wirechild-*.log")
+	if p := os.Getenv("VERIF_WIRE_LOG"); p != "" {
+		errf, _ = os.OpenFile(p, os.O_APPEND|os.O_CREATE|os.O_WRONLY, 0o644)
+	}
 	cmd.Stderr = errf
 	if err := cmd.Start(); err != nil {
 		return nil, err
@@ -399,7 +422,13 @@ func startWireChild() (*wireChild, error) {
 			}
 		}
 	}()
-	go func() { _ = cmd.Wait(); close(wc.done); if os.Getenv("VERIF_WIRE_LOG") == "" { os.Remove(errf.Name()) } }()
+	go func() {
+		_ = cmd.Wait()
+		close(wc.done)
+		if os.Getenv("VERIF_WIRE_LOG") == "" {
+			os.Remove(errf.Name())
+		}
+	}()
 	select {
 	case <-got:
 	case <-wc.done:
